@@ -1,4 +1,5 @@
 // ---- std gaps (assumed specifications of std functions Verus has no spec for) ----
+global size_of usize == 8;   // assumption: 64-bit target
 pub mod vp_std {
 use vstd::prelude::*;
 pub uninterp spec fn vp_spec_min<T>(a: T, b: T) -> T;
@@ -40,4 +41,3 @@ pub assume_specification[ u32::pow ](b: u32, e: u32) -> (r: u32)
     ensures  r == vstd::arithmetic::power::pow(b as int, e as nat);
 } // mod vp_std
 pub use vp_std::*;
-broadcast use vp_std::group_std_gaps;
